@@ -26,6 +26,13 @@ PROBES = {
     "require-python": "local m = try(require, 'python') return (type(m) == 'table' and has(m.eval)) and 'ESCAPE:python' or 'ok'",
     "require-coroutine": "local m = try(require, 'coroutine') return (type(m) == 'table' and has(m.create)) and 'INFO:coroutine' or 'ok'",
     "require-G": "local m = try(require, '_G') return (type(m) == 'table' and (has(m.io) or has(m.loadstring))) and 'ESCAPE:_G' or 'ok'",
+    # the same names in spellings a loader might normalise
+    "require-spellings": "local hit = nil for _, base in ipairs({'io', 'os', 'package', 'debug', 'python', '_G'}) do "
+                         "for _, v in ipairs({' ' .. base, base .. ' ', '\\t' .. base, base .. '\\n', ' ' .. base .. ' ', base:upper(), 'Module:' .. base, "
+                         "base .. '.lua', './' .. base, base .. '\\0'}) do "
+                         "for _, fn in ipairs({require, _cached_mod}) do local m = try(fn, v) "
+                         "if type(m) == 'table' and (has(m.open) or has(m.execute) or has(m.loadlib) or has(m.getupvalue) or has(m.eval) or has(m.loadstring)) "
+                         "then hit = hit or ('ESCAPE:require-spelling:' .. base) end end end end return hit or 'ok'",
     "require-table-real": "local m = try(require, 'string') return 'ok'",
     # ---- sandbox internals exposed as globals
     "cached-mod-io": "local m = _cached_mod and try(_cached_mod, 'io') return (type(m) == 'table' and has(m.open)) and 'ESCAPE:io' or 'ok'",
